@@ -1,8 +1,9 @@
 import OrsoVerif.Model.PyVal
-import OrsoVerif.Model.DictRow
-/-! Driver glue for C02. -/
+import OrsoVerif.Model.DictSession
+/-! Driver glue for C02.  The driver runs the *assembled code* (`Model/DictRowCode.lean`, built from the
+statements extracted from the working tree), not the specification functions. -/
 namespace Drv.C02
-open DictRow
+open DictRow DictSession Gen.DictCode
 
 def asStrs : List PyVal → Option (List String)
   | [] => some []
@@ -14,27 +15,95 @@ def asDicts : List PyVal → Option (List (List (String × PyVal)))
   | .dict d :: xs => (asDicts xs).map (d :: ·)
   | _ => none
 
+def asRows : List PyVal → Option (List (List PyVal))
+  | [] => some []
+  | .list r :: xs => (asRows xs).map (r :: ·)
+  | _ => none
+
 def pairs (m : List (String × PyVal)) : PyVal := .list (m.map fun p => .list [.str p.1, p.2])
+
+def errV : PyVal := .list [.str "err"]
+
+def optV : Option PyVal → PyVal
+  | some v => v
+  | none => errV
+
+def asNat : PyVal → Option Nat
+  | .int i => if i < 0 then none else some i.toNat
+  | _ => none
+
+def asOp : PyVal → Option (Op PyVal)
+  | .list [.str "ctx"] => some .ctx
+  | .list [.str "frame", .list ds] => (asDicts ds).map .frame
+  | .list [.str "rows", .list fields, .list rows] => do
+    let f ← asStrs fields
+    let r ← asRows rows
+    pure (.rows f r)
+  | .list [.str "append", i, .dict d, .list probes, dflt] => do
+    let i ← asNat i
+    let p ← asStrs probes
+    pure (.append i d p dflt)
+  | .list [.str "row", .list fields, .dict d, .list probes, dflt] => do
+    let f ← asStrs fields
+    let p ← asStrs probes
+    pure (.row f d p dflt)
+  | .list [.str "reread", i] => (asNat i).map .reread
+  | .list [.str "derive", i, .str how, .int n] => do
+    let i ← asNat i
+    match how with
+    | "slice" => pure (.derive i (.slice (if n < 0 then none else some n.toNat)))
+    | "query" => pure (.derive i .query)
+    | "add" => pure (.derive i .add)
+    | _ => none
+  | _ => none
+
+def asOps : List PyVal → Option (List (Op PyVal))
+  | [] => some []
+  | x :: xs => do
+    let o ← asOp x
+    let os ← asOps xs
+    pure (o :: os)
+
+def viewsV (v : Views PyVal) : List PyVal :=
+  [.list v.row, pairs v.asMap, pairs v.asDict, .list (v.gets.map optV)]
+
+def outV : Out PyVal → PyVal
+  | .ctx => .list [.str "ctx"]
+  | .skip => .list [.str "skip"]
+  | .err => .list [.str "err"]
+  | .frame names rows => .list [.str "frame", .list (names.map .str), .list (rows.map .list)]
+  | .appended rows v => .list ([.str "appended", .list (rows.map .list)] ++ (viewsV v).drop 1)
+  | .row v => .list (.str "row" :: viewsV v)
 
 def handle (op : String) (args : List PyVal) : Option (List PyVal) :=
   match op, args with
   | "row", [.list fields, .dict d, .list probes, dflt] => do
     let fields ← asStrs fields
     let probes ← asStrs probes
-    let row := extract .none fields d
-    pure [.list row, pairs (asMap fields row), pairs (asDict fields row),
-          .list (probes.map fun p => DictRow.get fields row p dflt)]
+    match rowNew .none .str (createClass fields tuplesOnlyDefault) (.dict d) with
+    | none => pure [errV]
+    | some row =>
+      pure [.list row, pairs (asMapExpr fields row), pairs (asDictExpr fields row),
+            .list (probes.map fun p => optV (getCode fields row p dflt)),
+            .list ((keysExpr fields row).map .str), .list (valuesExpr fields row),
+            pairs (asJsonViewExpr fields row)]
   | "frame", [.list ds] => do
     let ds ← asDicts ds
-    match frameOfDicts .none ds with
-    | none => pure [.str "StopIteration"]
-    | some (names, rows) => pure [.list (names.map .str), .list (rows.map .list)]
+    match ds with
+    | [] => pure [.str "StopIteration"]
+    | _ :: _ =>
+      match frameOfDictsCode .none .str ds with
+      | none => pure [errV]
+      | some (names, rows) => pure [.list (names.map .str), .list (rows.map .list)]
   | "append", [.list fields, .list rows, .dict d] => do
     let fields ← asStrs fields
-    let rows ← rows.mapM fun r => match r with
-      | .list xs => some xs
-      | _ => none
-    pure [.list ((append .none fields rows d).map .list)]
+    let rows ← asRows rows
+    match appendCode .none .str (createClass fields frameRowsTuplesOnly) rows d with
+    | none => pure [errV]
+    | some rows' => pure [.list (rows'.map .list)]
+  | "session", [.list ops] => do
+    let ops ← asOps ops
+    pure [.list ((run .none .str [] ops).2.map outV)]
   | _, _ => none
 
 end Drv.C02
